@@ -13,13 +13,14 @@ TRUSTED_BASE = [
     "extraction + driver.ml, cross-checked against vm_compute; harness door verif::pipe under start_paused; door verif::session for the session-level timer (real time)",
     "hand-written model coq/Model/Listener.v of the session loop with respect to client_listener_timeout; fact LISTENER_TIMEOUT_SPARES_ACTIVE_SESSIONS",
     "the real endpoint over a scripted SOCKS5 server that falls silent (c15_silent_front, real time); fact MUX_AUTH_UNDER_ESTABLISHMENT_TIMEOUT",
+    "the same server silent at the UDP ASSOCIATE a new client source needs in the middle of a tunnel (c15_udp_front scenario 5, real time); fact UDP_ASSOCIATE_UNDER_ESTABLISHMENT_TIMEOUT",
 ]
 ASSUMPTIONS = [
     "tokio::time::timeout never fires before its deadline and polls the inner future first",
     "establishment and handshake timeouts are tokio::time::timeout wrappers whose presence is a regenerated structural fact; their firing is exercised through the session door in C10",
 ]
 RULE = ("activity patterns relative to T: arrival gaps in {1, 7, T/3, T-3, T-1, T, T+1, T+7, 2T-1, 2T, 2T+3, 3T+11}, one-sided and two-sided traffic, "
-        "back-pressure stalls shorter and longer than T, ends idle / EOF / flush-never / error; whole sessions (HTTP/1.1, HTTP/2) with a tunnel transferring under a short client-listener timeout, then idle; CONNECT ip:port / _udp2 through a SOCKS5 forwarder whose server falls silent at the greeting / authentication / request;  pure-arrival scenarios carry the direct oracle "
+        "back-pressure stalls shorter and longer than T, ends idle / EOF / flush-never / error; whole sessions (HTTP/1.1, HTTP/2) with a tunnel transferring under a short client-listener timeout, then idle; CONNECT ip:port / _udp2 through a SOCKS5 forwarder whose server falls silent at the greeting / authentication / request, or at the UDP ASSOCIATE made for a new client source inside an open _udp2 tunnel;  pure-arrival scenarios carry the direct oracle "
         "(closed no earlier than T and no later than 2T after the last transfer, never while a transfer happens in every period); "
         "non-trivial = some gap >= T-3; distinct = distinct script")
 
@@ -82,6 +83,11 @@ def gen_cases(rng, ctx):
             l = line("c15_silent_front", [[mode, udp, http2, est]])
             cases.append(Case(l, None, kind="live:silent-socks-%s-h%d" % ("udp" if udp else "tcp", 2 if http2 else 1), nontrivial=True,
                               meta={"silent": True, "mode": mode, "udp": udp, "http2": http2, "est": est}))
+    # the same clause for an attempt made in the middle of a tunnel: every new client source of a UDP multiplexer over a SOCKS5 upstream
+    # needs a connection to the server and a UDP ASSOCIATE dialogue; the server never answers the one for the second source
+    # (establishment timeout 700 ms): the attempt has to be given up, seen by the server as the close of that control connection
+    l = line("c15_udp_front", [[0, 0, 0, 0, 5]])
+    cases.append(Case(l, None, kind="live:silent-socks-udp-associate", nontrivial=True, meta={"silent_assoc": True, "est": 700}))
     # the timers of the real listener (Core::listen on a loopback port): silent TCP connection, half a ClientHello,
     # completed handshake without a request (HTTP/1.1 and HTTP/2)
     for kind in (0, 1, 2, 3):
@@ -114,6 +120,23 @@ RETRY_PREFIX = "live"
 def judge(case, impl, model, spec, ctx):
     if case.meta.get("silent"):
         return judge_silent(case, impl, None, ctx, released=True)
+    if case.meta.get("silent_assoc"):
+        if impl == "999":
+            return [("violation", "the SOCKS5 harness panicked")]
+        if impl == "996":
+            ctx.setdefault("skipped_env", []).append(case.kind)
+            return []
+        head = untok(impl.split()[0])
+        what = ("CONNECT _udp2 through a SOCKS5 forwarder, establishment timeout %d ms: the server answers the UDP ASSOCIATE made for client source port 4000 and "
+                "never the one made for source port 4001 (it keeps that control connection open)" % case.meta["est"])
+        if head[0] != 200 or len(head) < 5:
+            return [("disagree", "%s: CONNECT _udp2 answered %d" % (what, head[0]))]
+        st, closed, abandoned, ms, limit = head[:5]
+        if not abandoned:
+            return [("violation", "%s: %d ms after the datagram that needed it the attempt is still pending (its control connection is open, the tunnel %s): "
+                                  "an outbound attempt that does not complete within the establishment timeout is abandoned"
+                     % (what, limit, "was closed" if closed else "is still open"))]
+        return []
     if case.meta.get("idle"):
         if impl == "999":
             return [("violation", "the session harness panicked")]
